@@ -37,6 +37,12 @@ pub fn run_case(case: &HistCase, st: &mut Stats, known_open: &dyn Fn(&str) -> bo
     }
     // preparation steps
     for o in &case.ops[..n - 1] {
+        // operand shapes of open findings (container copies with colliding names, copied SHORT-NAME elements ...) would leave
+        // a corrupt index behind that the operation under test then trips over: they are left out of the preparation
+        if let Some(kf) = crate::histprops::excluded_pub(&mut w, o, known_open) {
+            st.excluded(kf);
+            continue;
+        }
         if no_panic(|| w.apply(o)).is_err() {
             audit.reset_held();
             st.class("aborted:panic-or-deadlock(C12)");
